@@ -24,6 +24,16 @@ def ins_scenarios(rng, n):
             sc['ops'].insert(0, {'op': 'apply_batch', 'tasks': [{'idx': i} for i in range(k)], 'dur': {'kind': 'map', 'map': {}, 'default': 0.01}, 'get_timeout': 30,
                                  'want_insights': True})
             sc['pool'].pop('keep_alive', None)
+        elif rng.random() < .2 and len(sc['ops']) >= 2:
+            # a kept-alive pool whose workers are replaced between two calls (a pool setting changes, or a call fails): the counts
+            # are those of the workers that are there now
+            sc['pool']['keep_alive'] = True
+            if rng.random() < .5:
+                what = rng.choice(['pass_worker_id', 'shared_objects', 'use_worker_state'])
+                sc['ops'].insert(1, {'op': 'set', 'what': what, 'value': not bool(sc['pool'].get(what))})
+            else:
+                sc['ops'].insert(1, {'op': 'map', 'n': 4, 'chunk_size': 1, 'elem': 'scalar', 'fail': {'at': [1], 'exc': 'ValueError'}})
+                sc['all_valid'] = False
         scs.append(sc)
     return scs
 
